@@ -205,7 +205,7 @@ pub fn parse(data: &str) -> Result<KyGElements, Error> {
                         },
                     );
                 }
-                _ => println!("Desconocido"),
+                _ => log::warn!("Elemento de tipo desconocido en KyGananciasSolares.txt"),
             };
         }
         // Ganancias solares de hueco
